@@ -4,6 +4,7 @@
 package gen
 
 import (
+	"fmt"
 	"strings"
 
 	"pgregory.net/rapid"
@@ -16,7 +17,7 @@ var constructs = recipe.Constructs()
 var idNames = []string{"x", "y", "foo", "T", "i", "err", "ok", "_", "a1", "é", "f", "v", "String", "len", "0XFF", "1E6", "0B1010", "0O17", "0X1P-2", "1_000", "0x1F", "017", "1i"}
 var opNames = []string{"+", "-", "*", "/", ":=", "=", "==", "!=", "<", "&&", "||", "!", "&", "<-", "...", ":", ";", ".", ",", "++", "+=", "|", "~", "(", ")", "{", "}"}
 var hostileStr = []string{"%d", "100%", "%%", "%!s(MISSING)", "", " ", "\n", "\"", "`", "//", "/*", "*/", "{", "}", "a b", "x\ny", "\x00", "\xff", "日本", "package", "func()", "1e", "0x", "'", "\\", "\t", ";"}
-var paths = []string{"fmt", "os", "math/rand", "crypto/rand", "a/d", "b/d", "x.y/z", "github.com/u/pkg", "C", "", "strings", "a/b/v2"}
+var paths = []string{"fmt", "os", "math/rand", "crypto/rand", "a/d", "b/d", "x.y/z", "github.com/u/pkg", "C", "", "strings", "a/b/v2", "x.y/api/2024", "x.y/7", "x.y/日本語", "x.y/-", "a/d/"}
 
 // Str draws a string argument: mostly plausible for its role, sometimes arbitrary.
 func Str(t *rapid.T, role string) string {
@@ -33,9 +34,23 @@ func Str(t *rapid.T, role string) string {
 	case "Comment":
 		return rapid.SampledFrom([]string{"a comment", "two\nlines", "with } brace", "trailing *", "// raw", "/* raw */", "x := 1", ""}).Draw(t, "comment")
 	case "path":
+		if rapid.IntRange(0, 9).Draw(t, "freshpath") == 4 {
+			// a path this process has not seen before (what a first use computes must be what later uses get),
+			// ending in an element the alias guesser can make nothing of, or in an ordinary one
+			return fmt.Sprintf("n%d.example/%s", rapid.IntRange(0, 1<<30).Draw(t, "nonce"), rapid.SampledFrom([]string{"7", "2024", "日本語", "-", "d", "go", "int"}).Draw(t, "freshlast"))
+		}
 		return rapid.SampledFrom(paths).Draw(t, "path")
 	}
 	return rapid.SampledFrom(idNames).Draw(t, "id")
+}
+
+// Str2 draws the import path of a plausible program: the usual suspects, paths whose guessed alias needs
+// help, and now and then a path this process has not seen before.
+func Str2(t *rapid.T) string {
+	if rapid.IntRange(0, 9).Draw(t, "freshqpath") == 4 {
+		return fmt.Sprintf("n%d.example/%s", rapid.IntRange(0, 1<<30).Draw(t, "qnonce"), rapid.SampledFrom([]string{"7", "2024", "日本語", "-", "d", "go", "int"}).Draw(t, "qfreshlast"))
+	}
+	return rapid.SampledFrom([]string{"fmt", "os", "a/d", "b/d", "math/rand", "crypto/rand", "x.y/z", "x.y/api/2024", "x.y/7", "x.y/日本語"}).Draw(t, "qpath")
 }
 
 // Val draws a value of a type Lit supports.
@@ -197,7 +212,7 @@ func Expr(t *rapid.T, depth int) *recipe.Node {
 		case 1:
 			return recipe.S().C("Lit", Val(t))
 		case 2:
-			return recipe.Qual(rapid.SampledFrom([]string{"fmt", "os", "a/d", "b/d", "math/rand", "crypto/rand", "x.y/z"}).Draw(t, "qpath"), rapid.SampledFrom([]string{"X", "Println", "Int"}).Draw(t, "qname"))
+			return recipe.Qual(Str2(t), rapid.SampledFrom([]string{"X", "Println", "Int"}).Draw(t, "qname"))
 		}
 		return recipe.S().C(rapid.SampledFrom([]string{"Nil", "True", "False", "Iota"}).Draw(t, "kw"))
 	}
